@@ -638,8 +638,10 @@ func AuthResponseFormPost(res http.ResponseWriter, redirectURI string, response 
 }
 
 func setFragment(uri *url.URL, params url.Values) string {
-	uri.Fragment = params.Encode()
-	return uri.String()
+	// params.Encode() is already percent-encoded: appending it verbatim avoids a second round of
+	// escaping by url.URL.String(), which would corrupt values containing reserved characters.
+	uri.Fragment, uri.RawFragment = "", ""
+	return uri.String() + "#" + params.Encode()
 }
 
 func mergeQueryParams(uri *url.URL, params url.Values) string {
